@@ -86,6 +86,9 @@ PROP = Prop(
     coq_run=["theories/C18/Run.v", "theories/C18/RunM.v", "theories/QE/Run.v", "theories/C18/RunQ.v"],
     streams=[Stream("assign", "c18assign", n_quick=150, n_thorough=3000, valid=valid,
                     what="Nodes.redistribute/updateBackends/IsOurBackend on real Nodes and Peer objects"),
+             Stream("member", "c18member", n_quick=80, n_thorough=1500, valid=valid_member, timeout=600,
+                    what="Nodes.checkNodeAvailability/sendPing/getOnlineNodes on a real Nodes object pinging scripted partner nodes over HTTP "
+                         "(all on one ip address, ports differ); expected = C18/Member.v round by round"),
              Stream("cluster", "qe", n_quick=200, n_thorough=2000, shards_thorough=4, valid=valid_cluster,
                     shrinker=shrink_request, extra_args=["--profile", "c18"],
                     what="2-3 in-process lmd nodes connected through their real HTTP /query endpoint, request sent to node 0; "
@@ -94,7 +97,7 @@ PROP = Prop(
         "Coq 8.16.1 kernel, vm_compute (cases evaluation and the non-vacuity Example); no native_compute",
         "axioms: none (Print Assumptions: closed under the global context, captured per run)",
         "correspondence harness (Go, harness/inpkg/c18_assign.go) and the cases-file emitter",
-        "membership model C18/Member.v (checkNodeAvailability/sendPing/getOnlineNodes): theorems proved, its stream `c18member` (harness/inpkg/c18_member.go) is NOT registered yet - the harness hung in its first run; until it is, the membership theorems are tied to nodes.go by reading only",
+        "correspondence harness harness/inpkg/c18_member.go (scripted partner nodes answering the real HTTP ping)",
         "modelled, not verified: heartbeat timing (a ping that fails or exceeds the heartbeat timeout is the model's NoReply; the loop interval is not modelled), "
         "the first ping round is assumed to identify this node (nodes.go panics otherwise), sub-peers of federated backends",
     ],
